@@ -258,7 +258,15 @@ class Lib:
       # a TimeIt object is re-used when the same name comes back and the object is not active
       cache = self.tls.timeits
       t = cache.get(a)
-      if t is None or any(t is x for x in self.tls.timeit_active):
+
+      def reaches_active(x, seen):
+        # re-using x below one of its own descendants would make the child lists cyclic
+        # (status() then recurses for ever) — child bookkeeping is not a scoped setting
+        if id(x) in seen:
+          return False
+        seen.add(id(x))
+        return any(x is y for y in self.tls.timeit_active) or any(reaches_active(c, seen) for c in x.children)
+      if t is None or reaches_active(t, set()):
         t = pg.timeit(a)
         cache[a] = t
       return t
